@@ -1,6 +1,107 @@
+(* ---- SpannedDiagnosticFormatter cases (C19/Diag.v) ----------------------- *)
+let utf8 (b : Buffer.t) (cp : int) =
+  if cp < 0x80 then Buffer.add_char b (Char.chr cp)
+  else if cp < 0x800 then (Buffer.add_char b (Char.chr (0xC0 lor (cp lsr 6)));
+                           Buffer.add_char b (Char.chr (0x80 lor (cp land 0x3F))))
+  else if cp < 0x10000 then (Buffer.add_char b (Char.chr (0xE0 lor (cp lsr 12)));
+                             Buffer.add_char b (Char.chr (0x80 lor ((cp lsr 6) land 0x3F)));
+                             Buffer.add_char b (Char.chr (0x80 lor (cp land 0x3F))))
+  else (Buffer.add_char b (Char.chr (0xF0 lor (cp lsr 18)));
+        Buffer.add_char b (Char.chr (0x80 lor ((cp lsr 12) land 0x3F)));
+        Buffer.add_char b (Char.chr (0x80 lor ((cp lsr 6) land 0x3F)));
+        Buffer.add_char b (Char.chr (0x80 lor (cp land 0x3F))))
+let hex_of (s : string) : string =
+  let b = Buffer.create (2 * String.length s) in
+  String.iter (fun ch -> Buffer.add_string b (Printf.sprintf "%02x" (Char.code ch))) s;
+  Buffer.contents b
+(* the string prefixed_underline_span_with_text builds from the rows: per row
+   "<num>| <text>\n<prefix><blanks><underline>", rows separated by "\n", the
+   message after the last row; nothing at all when there is no row *)
+let render_rows (plen : int) (rows : row list) (msg : string) : string =
+  let b = Buffer.create 64 in
+  let n = List.length rows in
+  List.iteri (fun i r ->
+    Buffer.add_string b (string_of_int (int_of_nat r.r_num));
+    Buffer.add_string b "| ";
+    List.iter (fun cp -> utf8 b (int_of_n cp)) r.r_text;
+    Buffer.add_char b '\n';
+    Buffer.add_string b (String.make plen '.');
+    Buffer.add_string b (String.make (int_of_nat (row_indent_cols corpus_width (nat_of_int plen) r)) ' ');
+    Buffer.add_string b (String.make (int_of_nat (row_under_cols corpus_width r)) '^');
+    if i = n - 1 then (Buffer.add_char b ' '; Buffer.add_string b msg) else Buffer.add_char b '\n') rows;
+  Buffer.contents b
+let ordinal (v : int) : string =
+  let suffix = match (v mod 100 >= 11 && v mod 100 <= 13, v mod 10) with
+    | (false, 1) -> "st" | (false, 2) -> "nd" | (false, 3) -> "rd" | _ -> "th" in
+  string_of_int v ^ suffix
+let rec pairs_of = function a :: b :: r -> (nat_of_int a, nat_of_int b) :: pairs_of r | _ -> []
+let split2 (line : string) : string * string =
+  match String.index_opt line ';' with
+  | Some i -> (String.sub line 0 i, String.sub line (i + 1) (String.length line - i - 1))
+  | None -> (line, "")
+let diag_line (line : string) : string =
+  (* D<fixed> <plen> ; <code points> *)
+  let fixed = String.length line > 1 && line.[1] = '1' in
+  let (a, t) = split2 line in
+  let plen = match split_ws a with _ :: p :: _ -> int_of_string p | _ -> 0 in
+  let text = List.map n_of_int (ints_of t) in
+  match diag_case fixed (nat_of_int plen) text with
+  | Panic | OutOfFuel -> "FEEDPANIC"
+  | Done (us, fs) ->
+    let b = Buffer.create 256 in
+    let len = List.fold_left (fun acc cp -> let bb = Buffer.create 4 in utf8 bb (int_of_n cp); acc + Buffer.length bb) 0 text in
+    Buffer.add_string b (Printf.sprintf "N %d" len);
+    List.iter (fun ((s, e), o) ->
+      Buffer.add_string b (match o with
+        | Done rows -> Printf.sprintf " | U %d %d x%s" (int_of_nat s) (int_of_nat e) (hex_of (render_rows plen rows "msg"))
+        | _ -> Printf.sprintf " | U %d %d P" (int_of_nat s) (int_of_nat e))) us;
+    List.iter (fun (off, o) ->
+      Buffer.add_string b (match o with
+        | Done (l, c) -> Printf.sprintf " | F %d x%s" (int_of_nat off) (hex_of (Printf.sprintf "m at f:%d:%d" (int_of_nat l) (int_of_nat c)))
+        | _ -> Printf.sprintf " | F %d P" (int_of_nat off))) fs;
+    Buffer.contents b
+let spanned_line (line : string) : string =
+  (* G<fixed><checked> <code points> ; s1 e1 s2 e2 ... *)
+  let fixed = String.length line > 1 && line.[1] = '1' in
+  let checked = String.length line > 2 && line.[2] = '1' in
+  let (a, t) = split2 line in
+  let text = match split_ws a with _ :: cps -> List.map (fun x -> n_of_int (int_of_string x)) cps | [] -> [] in
+  match spanned_case fixed checked text (pairs_of (ints_of t)) with
+  | Done blocks ->
+    let b = Buffer.create 256 in
+    List.iteri (fun i (dots, rows) ->
+      if i > 0 then Buffer.add_char b '\n';
+      Buffer.add_string b (render_rows (if dots then 3 else 0) rows
+                             (if i = 0 then "msg" else ordinal (i + 1) ^ " occurrence"))) blocks;
+    "W 0 x" ^ hex_of (Buffer.contents b)
+  | _ -> "W 0 P"
+
 let show_on f = function Some x -> f x | None -> "-"
+let on_line_line (line : string) : string =
+  (* O <code points> ; s1 e1 s2 e2 ... : the two lines underline_spans_on_line_with_text prints,
+     without the message *)
+  let (a, t) = split2 line in
+  let text = match split_ws a with _ :: cps -> List.map (fun x -> n_of_int (int_of_string x)) cps | [] -> [] in
+  match on_line_case text (pairs_of (ints_of t)) with
+  | Done lr ->
+    let b = Buffer.create 64 in
+    Buffer.add_string b (string_of_int (int_of_nat lr.lr_num));
+    Buffer.add_string b "| ";
+    List.iter (fun cp -> utf8 b (int_of_n cp)) lr.lr_text;
+    Buffer.add_char b '\n';
+    Buffer.add_string b (String.make (int_of_nat (line_row_indent_cols corpus_width lr)) ' ');
+    List.iter (fun seg ->
+      let (u, g) = seg_cols corpus_width seg in
+      Buffer.add_string b (String.make (int_of_nat u) '-');
+      Buffer.add_string b (String.make (int_of_nat g) ' ')) lr.lr_segs;
+    "O 0 x" ^ hex_of (Buffer.contents b)
+  | _ -> "O 0 P"
+
 let () =
   iter_lines (fun line ->
+    if String.length line > 0 && line.[0] = 'O' then on_line_line line else
+    if String.length line > 0 && line.[0] = 'D' then diag_line line else
+    if String.length line > 0 && line.[0] = 'G' then spanned_line line else
     let line = if String.length line > 0 && line.[0] = 'T' then String.sub line 1 (String.length line - 1) else line in
     let chunks = List.map (fun c -> List.map n_of_int (ints_of c)) (String.split_on_char ';' line) in
     match run_case chunks with
